@@ -50,7 +50,7 @@ static void plan_gen(SPlan *P, uint64_t seed, const RunOpts *o) {
     for (int i = 0; i < P->nf; i++) {
         Fault *f = &P->f[i]; memset(f, 0, sizeof *f);
         uint32_t k = sim_rndn(100);
-        f->via = sim_rndn(12) == 0;
+        f->via = sim_rndn(5) == 0;
         if (k < 30) { f->kind = FT_FLIP; f->a = (long)(NVM_HEADER_SIZE * 8 + sim_rndn((uint32_t)((n - NVM_HEADER_SIZE) * 8))); }
         else if (k < 50) { f->kind = FT_TRUNC; uint32_t r = sim_rndn(10); f->a = r == 0 ? 0 : r == 1 ? (long)n - 1 : r == 2 ? NVM_HEADER_SIZE : r == 3 ? NVM_HEADER_SIZE - 1 : (long)sim_rndn((uint32_t)n); }
         else if (k < 72) { f->kind = FT_BURST; f->b = 2 + sim_rndn(31); f->a = (long)(NVM_HEADER_SIZE * 8 + sim_rndn((uint32_t)((n - NVM_HEADER_SIZE) * 8 - (uint32_t)f->b + 1))); f->c = (unsigned long)(sim_rnd() | 1); }
@@ -200,6 +200,15 @@ static void fam_run(uint64_t seed, const RunOpts *o, Result *r) {
     bool control_ok = c0.finished && c0.dok == 1 && c0.execs == 1 && c0.outlen == ref->out.len && c0.status == ref->status;
     if (!control_ok) { strcpy(r->verdict, "skip"); buf_printf(&r->detail, "control arm failed: unfaulted file did not load/run as in the reference"); return; }
 
+    /* second control arm: the same long-lived daemon first loads and runs the INTACT file; every damaged copy that
+     * follows goes to that same process (a loader that remembers what it has verified must not be fooled) */
+    bool any_daemon = false; for (int i = 0; i < P.nf; i++) any_daemon |= P.f[i].via;
+    if (any_daemon) {
+        Outcome cd = consume_daemon(m->d, m->n);
+        bool dok = cd.finished && cd.dok >= 1 && cd.execs == 1 && cd.outlen == ref->out.len;
+        probe(r, "daemon_control_arm_ok", dok);
+        if (!dok) { strcpy(r->verdict, "skip"); buf_printf(&r->detail, "daemon control arm failed: the unfaulted file did not run through the daemon"); return; }
+    }
     uint8_t *w = malloc(m->n + 8192);
     for (int i = 0; i < P.nf && strcmp(r->verdict, "violation") != 0; i++) {
         Fault *f = &P.f[i];
